@@ -129,7 +129,8 @@ theorem MoveIn.trans {L fr to} {a b c : State} (h1 : MoveIn L fr to a b) (h2 : M
 instance (L fr to) : ObsLocal (MoveIn L fr to) where
   refl _ := MoveIn.of_eq rfl rfl rfl
   trans := MoveIn.trans
-  of_eq _ _ := MoveIn.of_eq
+  of_eq _ _ h1 h2 h3 _ _ := MoveIn.of_eq h1 h2 h3
+  logEv _ _ _ := MoveIn.of_eq rfl rfl rfl
 
 theorem MoveIn.of_same {L fr to} {s s' : State} (h : Same s s')
     (hh : ∀ o : Nat, (s'.observers[o]?).map ObsRec.handlers = (s.observers[o]?).map ObsRec.handlers) :
@@ -178,7 +179,8 @@ structure SameH (s s' : State) : Prop extends Same s s' where
 instance : ObsLocal SameH where
   refl s := ⟨Same.refl s, fun _ => rfl⟩
   trans h1 h2 := ⟨h1.toSame.trans h2.toSame, fun o => (h2.handlers o).trans (h1.handlers o)⟩
-  of_eq s s' h1 h2 h3 := ⟨ObsLocal.of_eq s s' h1 h2 h3, fun o => by rw [h1]⟩
+  of_eq s s' h1 h2 h3 h4 h5 := ⟨ObsLocal.of_eq s s' h1 h2 h3 h4 h5, fun o => by rw [h1]⟩
+  logEv e s he := ⟨ObsLocal.logEv e s he, fun _ => rfl⟩
 
 theorem PresM.ofSameH {L fr to α} {m : M α} (h : Pres SameH m) : Pres (MoveIn L fr to) m :=
   h.mono fun _ _ q => MoveIn.of_same q.toSame q.handlers
